@@ -70,6 +70,7 @@ func runPick(raw json.RawMessage) (interface{}, error) {
 	if err != nil || decoded["rc"] == nil {
 		return nil, fmt.Errorf("pick: the generated route configuration did not decode: %v", err)
 	}
+	observeJSON(c.ID, decoded)
 	lis := &xdsresource.ListenerResource{NetworkFilters: []*xdsresource.NetworkFilter{{
 		FilterType: xdsresource.NetworkFilterTypeHTTP, RouteConfigName: "rc",
 	}}}
